@@ -15,6 +15,8 @@ From ASV.C09 Require Model.
 From ASV.C18 Require Model.
 From ASV.C19 Require Model.
 From ASV.C08 Require Model.
+From ASV.C17 Require Model.
+From ASV.C12 Require Model.
 
 Definition run (l : list Z) : list Z :=
   match l with
@@ -35,6 +37,8 @@ Definition run (l : list Z) : list Z :=
     | 18 => C18.Model.run_C18 fn payload
     | 19 => C19.Model.run_C19 fn payload
     | 8 => C08.Model.run_C08 fn payload
+    | 17 => C17.Model.run_C17 fn payload
+    | 12 => C12.Model.run_C12 fn payload
     | _ => bad_input
     end
   | _ => bad_input
